@@ -1469,10 +1469,17 @@ namespace awkward {
     }
     if (parser.length() > 5  &&  parser.substr(parser.length() - 5, 5) == "bit->") {
       std::string number = parser.substr(0, parser.length() - 5);
+      // the whole prefix has to be the number: "5xbit->" is not the word 5bit->
+      if (number.find_first_not_of("0123456789") != std::string::npos) {
+        return false;
+      }
       try {
         value = std::stoi(number, nullptr, 10);
       }
       catch (std::invalid_argument& err) {
+        return false;
+      }
+      catch (std::out_of_range& err) {
         return false;
       }
       if (0 < value  &&  value <= 64) {
